@@ -66,6 +66,7 @@ func mustLoad() *Program {
 		os.Exit(2)
 	}
 	prog.loadSecs = time.Since(t0).Seconds()
+	prog.loadLocalsLock(filepath.Join(verifDir, "locals.lock"))
 	if len(prog.contracts.Errors) > 0 {
 		for _, e := range prog.contracts.Errors {
 			fmt.Fprintln(os.Stderr, "contract error:", e)
@@ -620,6 +621,20 @@ func cmdLock(args []string) int {
 		}
 	}
 	os.WriteFile(filepath.Join(verifDir, "obligations.lock"), []byte(strings.Join(out, "\n")+"\n"), 0o644)
+	// declared variables of every function under contract (lets checks follow pure renames)
+	var ll []string
+	for _, k := range sortedKeys(prog.contracts.ByKey) {
+		c := prog.contracts.ByKey[k]
+		if c.Kind != "func" {
+			continue
+		}
+		if fn := prog.funcByKey[c.Key]; fn != nil {
+			for _, d := range prog.declaredLocals(fn) {
+				ll = append(ll, c.Key+"\t"+d.Name+"\t"+d.Type)
+			}
+		}
+	}
+	os.WriteFile(filepath.Join(verifDir, "locals.lock"), []byte(strings.Join(ll, "\n")+"\n"), 0o644)
 	fmt.Printf("wrote %d lock entries\n", len(out)-1)
 	return 0
 }
@@ -642,6 +657,11 @@ func sweepFunctions(prog *Program) []*ssa.Function {
 			}
 		}
 		if !ok || fn.Synthetic != "" || fn.Name() == "init" {
+			continue
+		}
+		if prog.contractFor(fn) == nil && !prog.isEntryPoint(fn) {
+			// an unexported helper or local closure that is only ever called directly is
+			// covered where it is inlined into its callers, with their actual arguments
 			continue
 		}
 		if pos := fn.Pos(); pos.IsValid() {
